@@ -8,6 +8,10 @@ Read with `ast` from hdl21/sim/data.py and hdl21/sim/proto.py, cross-checked aga
   vlsir_save_modes    member names of vlsir.spice.Save.SaveMode (live protobuf enum: no source in the tree)
   save_mode_exported  pairs (data.SaveMode member, vsp.Save.SaveMode member) of export_save's if/elif chain
   sim_protected_names the `protected_names` list literal of data.py:sim
+  (the prefix of the names of unnamed analyses is a step of its own, 17a_sim_autoname.py -> C17Names.v: the MODEL depends on
+   it, and must keep building when one of the tables below fails closed, so that the streams can still look for a failing input)
+Each table is read off the BEHAVIOUR of the live code over its whole (finite) domain; the source form, where it is still
+recognisable, gives the order and must agree (else the step fails closed).
 """
 import ast, sys
 
@@ -45,82 +49,140 @@ dtree = src("hdl21/sim/data.py")
 ptree = src("hdl21/sim/proto.py")
 import hdl21
 _d = sys.modules["hdl21.sim.data"]
+_p = sys.modules["hdl21.sim.proto"]
 import vlsir.spice_pb2 as _vsp
 
-# ---- the Analysis union and each member's AnalysisType
-an_union = _union(dtree, "Analysis", "data.py")
-if [c.__name__ for c in _d.Analysis.__args__] != an_union:
+# ---- the Analysis union and each member's AnalysisType: the live Union and the live `tp` of each member; the source
+#      (`Analysis = Union[...]`, `return AnalysisType.X`) must agree where it still has that form
+an_union = [c.__name__ for c in _d.Analysis.__args__]
+sa = soft(_union, dtree, "Analysis", "data.py")
+if sa is not None and sa != an_union:
     die("Analysis union: ast reading differs from the live Union")
 an_types = []
 for cname in an_union:
-    cls = find_class(dtree, cname)
-    tp = [n for n in cls.body if isinstance(n, ast.FunctionDef) and n.name == "tp"]
-    if len(tp) != 1:
-        die(f"{cname}.tp: expected exactly one definition")
-    body = [n for n in tp[0].body if not isinstance(n, ast.Expr)]
-    if not (len(body) == 1 and isinstance(body[0], ast.Return) and isinstance(body[0].value, ast.Attribute)
-            and isinstance(body[0].value.value, ast.Name) and body[0].value.value.id == "AnalysisType"):
-        die(f"{cname}.tp does not return an AnalysisType member")
-    member = body[0].value.attr
-    value = getattr(_d.AnalysisType, member).value
-    live = getattr(_d, cname).tp.fget(None).value
-    if live != value or not isinstance(value, str):
-        die(f"{cname}.tp: live value {live!r} differs from {value!r}")
-    an_types.append((cname, value))
+    live = getattr(_d, cname).tp.fget(None)
+    if not isinstance(live, _d.AnalysisType) or not isinstance(live.value, str):
+        die(f"{cname}.tp is not an AnalysisType member with a string value")
+
+    def _member():
+        cls = find_class(dtree, cname)
+        tp = [n for n in cls.body if isinstance(n, ast.FunctionDef) and n.name == "tp"]
+        body = [n for n in tp[0].body if not isinstance(n, ast.Expr)] if len(tp) == 1 else []
+        if not (len(body) == 1 and isinstance(body[0], ast.Return) and _path(body[0].value)[:-1] == ["AnalysisType"]):
+            die("shape")
+        return body[0].value.attr
+    member = soft(_member)
+    if member is not None and member != live.name:
+        die(f"{cname}.tp: the source returns AnalysisType.{member}, the live property {live}")
+    an_types.append((cname, live.value))
 if len({v for _, v in an_types}) != len(an_types):
     die("AnalysisType values of the Analysis members are not distinct")
 
-ctrl_union = _union(dtree, "Control", "data.py")
-if [c.__name__ for c in _d.Control.__args__] != ctrl_union:
+ctrl_union = [c.__name__ for c in _d.Control.__args__]
+sa = soft(_union, dtree, "Control", "data.py")
+if sa is not None and sa != ctrl_union:
     die("Control union: ast reading differs from the live Union")
 
-# ---- SaveMode of hdl21 and of vlsir
-sm = find_class(dtree, "SaveMode")
-hdl_modes = []
-for st in sm.body:
-    if isinstance(st, ast.Assign):
-        if not (len(st.targets) == 1 and isinstance(st.targets[0], ast.Name) and isinstance(st.value, ast.Constant)
-                and isinstance(st.value.value, str)):
-            die("SaveMode: unexpected member shape")
-        hdl_modes.append((st.targets[0].id, st.value.value))
-if [(m.name, m.value) for m in _d.SaveMode] != hdl_modes or not hdl_modes:
+# ---- SaveMode of hdl21 and of vlsir (live enums; the literal class body must agree when every member is a string literal)
+hdl_modes = [(m.name, m.value) for m in _d.SaveMode]
+if not hdl_modes or not all(isinstance(v, str) for _, v in hdl_modes):
+    die("SaveMode: members are not strings")
+
+
+def _savemode_source():
+    out = []
+    for st in find_class(dtree, "SaveMode").body:
+        if isinstance(st, ast.Assign):
+            if not (len(st.targets) == 1 and isinstance(st.targets[0], ast.Name) and isinstance(st.value, ast.Constant)
+                    and isinstance(st.value.value, str)):
+                die("shape")
+            out.append((st.targets[0].id, st.value.value))
+    return out or None
+
+
+sa = soft(_savemode_source)
+if sa is not None and sa != hdl_modes:
     die("SaveMode: ast reading differs from the live enum")
 vlsir_modes = [k for k, _ in sorted(_vsp.Save.SaveMode.items(), key=lambda kv: kv[1])]
 if not vlsir_modes:
     die("vlsir Save.SaveMode has no members")
 
-# ---- export_save: which SaveMode members are translated, and to what
-fn = find_func(ptree, "export_save")
-pairs = []
-for n in ast.walk(fn):
-    if isinstance(n, ast.If) and isinstance(n.test, ast.Compare) and len(n.test.ops) == 1 \
-            and isinstance(n.test.ops[0], ast.Eq) and _path(n.test.comparators[0])[:-1] == ["data", "SaveMode"]:
-        left = _path(n.test.left)
-        if left != ["save", "targ"]:
-            die(f"export_save: comparison of {left}")
-        if not (len(n.body) == 1 and isinstance(n.body[0], ast.Assign) and isinstance(n.body[0].targets[0], ast.Name)
-                and n.body[0].targets[0].id == "mode"):
-            die("export_save: unexpected branch body")
-        rhs = _path(n.body[0].value)
-        if rhs[:-1] != ["vsp", "Save", "SaveMode"]:
-            die(f"export_save: unexpected mode value {rhs}")
-        pairs.append((_path(n.test.comparators[0])[-1], rhs[-1]))
-if not pairs:
-    die("export_save: no SaveMode branch found")
+# ---- export_save: which SaveMode members are translated, and to what.  BEHAVIOUR: export_save on a Save of every member
+#      (a refusal = not translated).  SOURCE: the if/elif chain `if save.targ == data.SaveMode.X: mode = vsp.Save.SaveMode.Y`
+#      or a literal table {data.SaveMode.X: vsp.Save.SaveMode.Y} (order; must agree).
+if not callable(getattr(_p, "export_save", None)):
+    die("proto.py has no export_save to probe")
+sm_b = []
+for m in _d.SaveMode:
+    try:
+        got = _p.export_save(_d.Save(targ=m))
+    except Exception:
+        continue
+    if [f.name for f, _ in got.ListFields()] != ["mode"]:
+        die(f"export_save(Save({m})) does not set exactly the mode")
+    sm_b.append((m.name, _vsp.Save.SaveMode.Name(got.mode)))
+
+
+def _chain():
+    pairs = []
+    for n in ast.walk(find_func(ptree, "export_save")):
+        if isinstance(n, ast.If) and isinstance(n.test, ast.Compare) and len(n.test.ops) == 1 \
+                and isinstance(n.test.ops[0], ast.Eq) and _path(n.test.comparators[0])[:-1] == ["data", "SaveMode"]:
+            if not (len(n.body) == 1 and isinstance(n.body[0], ast.Assign) and isinstance(n.body[0].targets[0], ast.Name)):
+                die("shape")
+            rhs = _path(n.body[0].value)
+            if rhs[:-1] != ["vsp", "Save", "SaveMode"]:
+                die("shape")
+            pairs.append((_path(n.test.comparators[0])[-1], rhs[-1]))
+    return pairs or None
+
+
+_hk = lambda n: _path(n)[-1] if _path(n)[-2:-1] == ["SaveMode"] and "vsp" not in _path(n) else None
+_vk = lambda n: _path(n)[-1] if _path(n)[-2:-1] == ["SaveMode"] and "vsp" in _path(n) else None
+cands = literal_tables(ptree, _hk, _vk) + if_chain_tables(ptree, _hk, _vk)
+sa = soft(_chain)
+if sa is not None:
+    cands.append(sa)
+pairs = reconcile("export_save", sm_b, cands)
 for a, b in pairs:
     if a not in dict(hdl_modes) or b not in vlsir_modes:
         die(f"export_save: unknown SaveMode member in {a}->{b}")
 
-# ---- protected names of class-style definitions
-pn = None
-for n in ast.walk(find_func(dtree, "sim")):
+# ---- protected names of class-style definitions.  BEHAVIOUR: which names a class body handed to the live @sim decorator may
+#      not bind, probed over the public attributes of a Sim, the names the model knew, and the literal `protected_names` of the
+#      source when it is there (which then gives the order, and must be refused name by name)
+pn_src = None
+for n in (ast.walk(soft(find_func, dtree, "sim") or ast.Module(body=[], type_ignores=[]))):
     if isinstance(n, ast.Assign) and isinstance(n.targets[0], ast.Name) and n.targets[0].id == "protected_names":
-        if not (isinstance(n.value, ast.List) and all(isinstance(e, ast.Constant) and isinstance(e.value, str) for e in n.value.elts)):
-            die("data.py:sim: protected_names is not a list of strings")
-        pn = [e.value for e in n.value.elts]
-if pn is None:
-    die("data.py:sim: protected_names not found")
+        if isinstance(n.value, (ast.List, ast.Tuple, ast.Set)) and all(isinstance(e, ast.Constant) and isinstance(e.value, str) for e in n.value.elts):
+            pn_src = [e.value for e in n.value.elts]
+_tb = hdl21.Module(name="TrxSimTb")
+_tb.add(hdl21.Port(name="VSS"))
+_probe0 = _d.Sim(tb=_tb)
 
+
+def _refused(name):
+    body = {"tb": _tb}
+    body[name] = {"name": "x", "tb": _tb, "Tb": _tb}.get(name, 5)
+    try:
+        _d.sim(type("TrxProbeSim", (), body))
+        return False
+    except Exception:
+        return True
+
+
+if _refused("trx_not_a_reserved_name"):
+    die("data.py:sim refuses a class body that binds an ordinary name: cannot probe the protected names")
+_cands = list(dict.fromkeys((pn_src or []) + ["attrs", "add", "run", "namespace"] + sorted(n for n in dir(_probe0) if not n.startswith("_"))))
+_probed = [n for n in _cands if _refused(n)]
+if pn_src is not None:
+    if set(pn_src) != set(_probed):
+        die(f"data.py:sim: protected_names {pn_src} of the source, but the live decorator refuses {_probed}")
+    pn = pn_src
+else:
+    pn = _probed
+if not pn:
+    die("data.py:sim: no protected name found")
 
 def _ok(s):
     if not all(32 <= ord(ch) < 127 for ch in s):
